@@ -84,6 +84,7 @@ type Stats struct {
 	Asserts       int
 	Covers        map[string]int
 	Truncations   map[string]int
+	Placeholders  map[string]int // formatted text that holds a placeholder instead of real characters, by site
 	Unsupported   map[string]int
 	Unwinds       map[string]int
 	ReachSat      int
@@ -149,6 +150,7 @@ type Exec struct {
 	NoMerge      bool
 	Deadline     time.Time // wall-clock budget of the instance (zero = none)
 	firstFinding time.Time
+	md5Seen      []md5Entry // digests taken on this path (collision-free abstraction)
 	qcache       map[[2]uint64]Result
 	initTarget   *ssa.Function
 
@@ -271,6 +273,7 @@ func (ex *Exec) runPath(fn *ssa.Function) {
 	ex.clock = nil
 	ex.ghost = nil
 	ex.extState = map[string]Value{}
+	ex.md5Seen = nil
 	ex.pathSites = map[string]bool{}
 	ex.inputMeta = map[string]InputMeta{}
 	ex.panicking = nil
@@ -334,6 +337,14 @@ func (ex *Exec) where() string {
 		pos = fr.curInst.Pos()
 	}
 	return fr.fn.String() + " " + ex.prog.Fset.Position(pos).String()
+}
+
+// whereCaller names the function on top of the stack (intrinsics run in their caller's frame).
+func (ex *Exec) whereCaller() string {
+	if len(ex.stack) == 0 {
+		return "?"
+	}
+	return ex.stack[len(ex.stack)-1].fn.String()
 }
 
 // assume adds a conjunct to the path condition.
